@@ -72,6 +72,7 @@ func newPair(cmode, smode websocket.CompressionMode, cthr, sthr int) (*websocket
 	if err != nil {
 		return nil, nil, rt, err
 	}
+	pairConns.Store(c, cli)
 	return c, rt.server, rt, nil
 }
 
